@@ -13,11 +13,13 @@ PID = "C02"
 TECHNIQUE = "Lean 4 theorems (structural induction over the layout combinators) + exact cell-for-cell correspondence"
 LEVEL_TEXT = ("Theorems in Lean about the executable layout model (pad / stack / border combinators, recipe_tree_to_table): the cells tile the "
               "h x w rectangle exactly once for every tree, every drawn node appears exactly once with its kind, proved by induction for all "
-              "trees; the model is tied to recipe_tree_to_table by cell-for-cell equality (position, spans, node, four borders) on random trees.")
+              "trees; read-back (C02.6): the visible table (positions, spans, kinds, borders) determines the drawing of the tree and conversely "
+              "(table_determines_drawing, drawing_determines_table, an explicit computable readback with readback_layout), with and without labels; "
+              "the model is tied to recipe_tree_to_table by cell-for-cell equality (position, spans, node, four borders) on random trees.")
 LEVEL_NOTE = ("Trusted: Lean kernel; hand-written layout model as far as the correspondence exercises it (random trees up to several hundred leaves, "
-              "exhaustive small shapes in the thorough tier). Step geometry, border spec and read-back are checked by the implementation-level "
-              "oracle on every generated tree where not yet a theorem (see evidence 'theorems').")
-LEAN_MODULES = ["RecipeGrid.Props.C02"]
+              "exhaustive small shapes in the thorough tier). Step geometry, border spec and read-back are theorems and are checked again on the real tables by the "
+              "implementation-level oracle on every generated tree.")
+LEAN_MODULES = ["RecipeGrid.Props.C02", "RecipeGrid.Props.C02b"]
 SOURCES = ["recipe_grid/renderer/recipe_to_table.py", "recipe_grid/renderer/table.py"]
 RULE = ("random recipe trees (arity 1..6, depth <= 8 quick / 12 thorough, titled/untitled/nested single-output sub recipes, multi-output roots, "
         "references as leaves) plus every tree shape with <= 5 (quick) / 6 (thorough) nodes; non-trivial = more than one cell; distinct = distinct table keys")
@@ -48,14 +50,17 @@ def kind_of(v):
 
 
 def real_table(t):
-    tb = recipe_tree_to_table(t)
+    try:
+        tb = recipe_tree_to_table(t)
+    except Exception as e:  # noqa  (a tree every constructor accepted must be drawable)
+        return -1, -1, [(-1, -1, 0, 0, [-1], "raised:" + type(e).__name__, "", "", "", "")], False
     by_id = collections.defaultdict(list)
     for p, n in paths(t):
         by_id[id(n)].append(p)
     cells = []
     for (r, c), cell in tb.to_dict().items():
         ps = by_id.get(id(cell.value), [])
-        path = ps[0] if len(ps) == 1 else ("ambiguous-or-foreign-node", len(ps))
+        path = ps[0] if len(ps) == 1 else (-1, len(ps))      # a cell showing a node that is not (exactly once) in this tree
         cells.append((r, c, cell.rows, cell.columns, list(path), kind_of(cell.value),
                       bname(cell.border_left), bname(cell.border_right), bname(cell.border_top), bname(cell.border_bottom)))
     # dense grid consistency (ExtendedCell back references)
@@ -127,6 +132,8 @@ def correspondence(run):
 
 # ------------------------------------------------------------------ the property on the real code
 def node_at(t, path):
+    if any(i < 0 for i in path):
+        return None
     for i in path:
         t = t.inputs[i] if isinstance(t, Step) else t.sub_tree
     return t
@@ -176,6 +183,8 @@ def region(cells, p):
 def check_tree(t):
     out = []
     h, w, cells, dense_ok = real_table(t)
+    if h == -1:
+        return [("C02:layout-raises:" + cells[0][5].split(":", 1)[1], "recipe_tree_to_table raised on a valid tree")]
     if not dense_ok:
         out.append(("C02:dense-grid-inconsistent", "extended cells do not point back at their cell"))
     # 1. tiling
@@ -289,11 +298,24 @@ def oracle(run):
         run.case(("oracle", rsexp.tree(t)), True)
         for sig, detail in res:
             run.violate(sig, detail, {"tree": rsexp.tree(t)})
+    # "is drawn as a gap-free rectangle": the grid a browser forms from the emitted rows and span attributes (C04's oracle)
+    from . import c04
+    for t in (trees + small)[:: max(1, len(trees + small) // run.budget(400, 4000))]:
+        try:
+            res = [(sg, dt) for sg, dt in c04.check_tree(t, "r-") if sg in ("C04:html-table-not-rectangular", "C04:placement-differs", "C04:bad-span-attribute")]
+        except Exception:
+            continue
+        run.case(("drawn", rsexp.tree(t)), True, kind="html-grid")
+        for sig, detail in res:
+            run.violate("C02:drawn-grid-wrong:" + sig.split(":", 1)[1], detail, {"tree": rsexp.tree(t), "html": True})
     # read-back: two trees draw the same table iff they have the same drawing (exhaustive small scope)
     groups = collections.defaultdict(dict)
     inv = collections.defaultdict(dict)
     for t in small:
-        k, d = table_key(t), drawing(t)
+        try:
+            k, d = table_key(t), drawing(t)
+        except Exception:
+            continue     # reported above as C02:layout-raises
         groups[k].setdefault(d, t)
         inv[d].setdefault(k, t)
     for k, ds in groups.items():
@@ -337,6 +359,9 @@ def tree_of_sexp(x):
 def replay(run, obj):
     t = tree_of_sexp(sexp.decode(sexp.parse(obj["replay"]["tree"])))
     res = check_tree(t)
+    if obj["replay"].get("html"):
+        from . import c04
+        res += [x for x in c04.check_tree(t, "r-") if x[0] in ("C04:html-table-not-rectangular", "C04:placement-differs", "C04:bad-span-attribute")]
     if "other" in obj["replay"]:
         u = tree_of_sexp(sexp.decode(sexp.parse(obj["replay"]["other"])))
         if (table_key(t) == table_key(u)) != (drawing(t) == drawing(u)):
